@@ -441,6 +441,27 @@ def rule_defassign(ctx):
             yield ob("C14.DEFASSIGN", f, "%s:%s" % (f.qual, nme), rev is not None, "local %r may be read before assignment%s" % (nme, (" (reviewed: %s)" % rev) if rev else " (UnboundLocalError on that path)"), node=u.node)
 
 
+def rule_totallookup(ctx):
+    """In validators, a subscript of a module-level dict is dominated by a membership test (else KeyError instead of ValueError)."""
+    n = 0
+    for f in ctx.program.all_funcs():
+        if not f.name.startswith("validate"):
+            continue
+        s = ctx.S.get(f.qual)
+        k = 0
+        for sb in s.by_kind("subscript"):
+            if sb.base.op == "glob":
+                m = ctx.program.modules.get(sb.base.a[0].split(".")[0])
+                val = m.const_values.get(sb.base.a[0].split(".", 1)[1]) if m else None
+                if not isinstance(val, dict):
+                    continue
+                good = any(c.op == "cmp" and c.a[0] in ("in", "notin") and c.a[1] is sb.index and c.a[2] is sb.base and ((c.a[0] == "in") == p) for c, p in facts(sb.pc))
+                k += 1
+                yield ob("C14.TOTALLOOKUP", f, "%s:lookup@%d" % (f.qual, k), good, "lookup %s[%s] is %s" % (sb.base.a[0], tm.show(sb.index, 2), "dominated by a membership test" if good else "not guarded: an unknown key raises KeyError, not ValueError"), node=sb.node)
+        if k == 0:
+            yield ob("C14.TOTALLOOKUP", f, "%s:lookups" % f.qual, True, "no table lookup in this validator")
+
+
 def rule_countguard(ctx):
     for o in c01.rule_countguard(ctx, rule="C14.COUNTGUARD"):
         yield o
@@ -458,6 +479,7 @@ RULES = [
     ("C14.RAISETYPES", 80, rule_raisetypes),
     ("C14.FACETS", len(FACETS), rule_facets),
     ("C14.DEFASSIGN", 190, rule_defassign),
+    ("C14.TOTALLOOKUP", 15, rule_totallookup),
     ("C14.COUNTGUARD", 23, rule_countguard),
     ("C14.CROPSTRICT", 4, rule_cropstrict),
 ]
